@@ -170,7 +170,24 @@ class Walker:
     def ex(self, node):
         if self.localprocs or (self.m is not None and self.fi.cls is not None):
             node = self.call_local_procs(node)
+        if self.m is not None and any(isinstance(n, ast.Call) and isinstance(n.func, (ast.Name, ast.Attribute)) and
+                                      ast.unparse(n.func) in ("reduce", "functools.reduce") for n in ast.walk(node)):
+            node = self.desugar_reduces(node)
         return self.inline_helpers(ir.from_ast(node, self.env))
+
+    def desugar_reduces(self, node):
+        """reduce(or_, gen, 0) anywhere inside an expression: replaced by the accumulator it abbreviates."""
+        walker = self
+        import copy
+
+        class T(ast.NodeTransformer):
+            def visit_Call(self, call):
+                self.generic_visit(call)
+                tmp = walker.reduce_or(call, node if hasattr(node, "lineno") else call)
+                if tmp is None:
+                    return call
+                return ast.copy_location(ast.Name(id=tmp, ctx=ast.Load()), call)
+        return T().visit(copy.deepcopy(node))
 
     def method_proc(self, call):
         """self._helper(...) in an elaborate() context whose body is statements followed by one `return <expr>` (and is
@@ -483,7 +500,8 @@ class Walker:
 
     def localdef(self, st):
         body = [s for s in st.body if not (isinstance(s, ast.Expr) and isinstance(s.value, ast.Constant))]
-        if len(body) == 1 and isinstance(body[0], ast.Return) and body[0].value is not None:
+        has_reduce = any(isinstance(n, ast.Call) and ast.unparse(n.func) in ("reduce", "functools.reduce") for n in ast.walk(st))
+        if len(body) == 1 and isinstance(body[0], ast.Return) and body[0].value is not None and not has_reduce:
             params = [a.arg for a in st.args.args]
             self.env[st.name] = ('localfn', tuple(params), body[0].value, ir.EnvBox(self.env))
             self.bind_ctx[st.name] = self.gen
